@@ -4,6 +4,7 @@ package main
 
 import (
 	"fmt"
+	"regexp"
 	"sort"
 	"strings"
 	"sync"
@@ -52,6 +53,24 @@ func flatCanon(g *Graph, fl flags) string {
 	return s
 }
 
+var memberToken = regexp.MustCompile(`"(?:[^"\\]|\\.)*":[a-zA-Z^0-9:]+(?:\("[^"]*"\))?|\+"[^"]*"=\[[^\]]*\]`)
+
+// tokenBag is the multiset of "member name : head of its type" and tag tokens of the strict
+// form: two types with the same bag consist of the same members and differ only in how these
+// are grouped (and ordered) - the same class as flatCanon when an ordering defect moved the
+// nested composite to the end of its parent.
+func tokenBag(g *Graph, fl flags) string {
+	s := canon(g, g.Root.T, canonOpts{fl: fl, sortObj: true, sortUni: true}, nil)
+	s = strings.ReplaceAll(s, "tR", "tU")
+	toks := memberToken.FindAllString(s, -1)
+	sort.Strings(toks)
+	head := s
+	if i := strings.IndexAny(s, "{("); i >= 0 {
+		head = s[:i]
+	}
+	return head + "|" + strings.Join(toks, "|")
+}
+
 // ---------------------------------------------------------------------------------------------
 // HASH oracle on a pair of types.
 //
@@ -73,7 +92,8 @@ func checkPair(g1, g2 *Graph) []finding {
 			if ok, why := looseEqual(g1, g1.Root.T, g2, g2.Root.T, fl); !ok {
 				if len(coll) == 0 {
 					reason = why
-					if flatCanon(g1, fl) == flatCanon(g2, fl) {
+					if flatCanon(g1, fl) == flatCanon(g2, fl) ||
+						(g1.features() == "acyclic" && g2.features() == "acyclic" && tokenBag(g1, fl) == tokenBag(g2, fl)) {
 						reason = "nesting-only"
 					}
 				}
